@@ -171,9 +171,18 @@ package types
 //@   trusted
 //@   results d, err
 //@ func ParseIPAddr
+//@   props C12
 //@   pure
-//@   trusted
 //@   results a, err
+//@   ensures nomix: err == nil ==> !(cnt(s, 58) > 0 && cnt(s, 46) > 0)
+//@   ensures nozone: err == nil ==> cnt(s, 37) == 0
+//@   ensures class: err != nil ==> errIs(err, errIP)
+
+// ------------------------------------------------------------- datetime.go
+//@ func checkValidDay
+//@   props C12
+//@   results err
+//@   ensures (err == nil) == validDate(year, month, day)
 
 // ------------------------------------------------------------- entity store
 // A store lookup is a deterministic function of the store and the UID
